@@ -62,9 +62,20 @@ def _lit(v):
     return repr(v)
 
 
+INIT = "__init__"   # module name standing for the package's own __init__.py
+
+
+def modname(prog, mod):
+    """dotted name under which module `mod` of the generated package is importable"""
+    return prog["pkg"] if mod == INIT else "%s.%s" % (prog["pkg"], mod)
+
+
 def _ref(prog, cur_mod, name):
     d = find(prog, name)
-    return name if d["mod"] == cur_mod else "%s.%s" % (d["mod"], name)
+    if d["mod"] == cur_mod:
+        return name
+    # definitions in the package's __init__.py are reached through the package object itself
+    return "%s.%s" % (prog["pkg"] if d["mod"] == INIT else d["mod"], name)
 
 
 def _rexpr(prog, fn, e, inners):
@@ -112,7 +123,7 @@ def _rexpr(prog, fn, e, inners):
         d = find(prog, e["f"])
         if e["via"] == "globals" and d["mod"] == mod:
             return "globals()[%r](x - 1)" % e["f"]
-        look = "getattr(sys.modules[%r], %r)" % ("%s.%s" % (prog["pkg"], d["mod"]), e["f"])
+        look = "getattr(sys.modules[%r], %r)" % (modname(prog, d["mod"]), e["f"])
         if e["via"] == "clone":
             return "verif_rt.fl(%s)(x - 1)" % look
         return "%s(x - 1)" % look
@@ -181,14 +192,17 @@ def render_files(prog, order=None):
     files = {"%s/__init__.py" % prog["pkg"]: ""}
     defs = fix_order(prog, prog["defs"] if order is None else [prog["defs"][i] for i in order])
     for mod in prog["modules"]:
-        others = [m for m in prog["modules"] if m != mod]
-        imports = "".join("from . import %s\n" % o for o in others)
-        text = HEADER % imports
+        text = HEADER % _imports(prog, mod)
         for d in defs:
             if d["mod"] == mod and not d.get("late"):
                 text += render_def(prog, d) + "\n"
         files["%s/%s.py" % (prog["pkg"], mod)] = text
     return files
+
+
+def _imports(prog, mod):
+    others = [m for m in prog["modules"] if m != mod]
+    return "".join(("import %s\n" % prog["pkg"]) if o == INIT else ("from . import %s\n" % o) for o in others)
 
 
 # ------------------------------------------------------------------------------------------
@@ -415,7 +429,7 @@ def apply_edit(prog, edit, tag):
 # ------------------------------------------------------------------------------------------
 
 def program_strategy(max_fns=6, two_modules=True, allow_hidden=True, allow_explicit=True, allow_cluster=True,
-                     str_sets=True, allow_hidden_plain=False, allow_alias=True, explicit_f0=False, value_heavy=False, allow_fdef=False, allow_dictset=False):
+                     str_sets=True, allow_hidden_plain=False, allow_alias=True, explicit_f0=False, value_heavy=False, allow_fdef=False, allow_dictset=False, allow_init=False):
     from hypothesis import strategies as st
 
     small = st.integers(0, 9)
@@ -423,6 +437,9 @@ def program_strategy(max_fns=6, two_modules=True, allow_hidden=True, allow_expli
     @st.composite
     def prog(draw):
         modules = ["a", "b"] if (two_modules and draw(st.booleans())) else ["a"]
+        if allow_init and draw(st.integers(0, 2)) == 0:
+            # some definitions live in the package's own __init__.py (same package as its sub-modules)
+            modules = [INIT] + modules
         nf = draw(st.integers(2, max_fns))
         nv = draw(st.integers(3, 5)) if value_heavy else draw(st.integers(0, 4))
         defs = []
@@ -569,6 +586,8 @@ def features(prog):
                 f.add("call-via-clone")
     if len(prog["modules"]) > 1:
         f.add("two-modules")
+    if INIT in prog["modules"] and any(d["mod"] == INIT for d in prog["defs"]):
+        f.add("package-init-module")
     if any(d["k"] == "var" and d["vtype"] == "dictset" for d in prog["defs"]):
         f.add("dict-from-set")
     if any(d["k"] in ("alias", "wrapper") for d in prog["defs"]):
@@ -591,8 +610,7 @@ def render_cells(prog):
     """[[module, source]]: one header cell per module, then one cell per (non-late) definition in definition order."""
     cells = []
     for mod in prog["modules"]:
-        others = [m for m in prog["modules"] if m != mod]
-        cells.append([mod, HEADER % "".join("from . import %s\n" % o for o in others)])
+        cells.append([mod, HEADER % _imports(prog, mod)])
     for d in fix_order(prog, prog["defs"]):
         if not d.get("late"):
             cells.append([d["mod"], render_def(prog, d)])
